@@ -95,6 +95,27 @@ def run(ctx):
                     ctx.violation("truncation:%s:%s" % (short(o), f.text(n["sub"])[:40]), "E-TYPE narrowing", f.loc(i),
                                   "a fractional value (%s) is implicitly truncated to a %d-bit integer: pressures and ratios below 1 become 0" % (
                                       f.text(n["sub"])[:60], tb))
+        # (a') a comparison between a single-precision and a double-precision value (neither a literal): the float side was rounded to 24
+        # bits when it was computed, the double side was not - a measurement that equals the configured ratio exactly compares as below it
+        for i, n in enumerate(f.nodes):
+            if n["k"] != "cast" or not n.get("implicit") or n.get("ck") != "FloatingCast" or n.get("fromtw") != "f32" or n.get("tw") != "f64":
+                continue
+            par = f.parent.get(i)
+            hops = 0
+            while par is not None and f.nodes[par]["k"] in ("paren", "implicit") and hops < 3:
+                par = f.parent.get(par)
+                hops += 1
+            pn = f.nodes[par] if par is not None else None
+            if pn is None or pn["k"] != "bin" or pn.get("op") not in ("<", "<=", ">", ">=", "==", "!="):
+                continue
+            other = pn["r"] if f.strip(pn["l"]) == f.strip(i) or i in set(f.walk(pn["l"])) else pn["l"]
+            if f.nodes[f.strip(other)]["k"] == "lit" or f.nodes[f.strip(n["sub"])]["k"] == "lit":
+                continue
+            n_casts += 1
+            ctx.violation("mixed-precision-comparison:%s:%s" % (short(o), f.text(par)[:50]), "E-TYPE narrowing", f.loc(par),
+                          "%s compares a single-precision value (%s) with a double-precision one (%s): the float was rounded when it was computed, so a "
+                          "measurement that equals a configured non-dyadic ratio exactly (1.3, 1.15) no longer satisfies '>=' - the threshold does not act at "
+                          "the configured value" % (f.text(par)[:80], f.text(n["sub"])[:40], f.text(other)[:40]))
         # (b) locals whose deduced type is a 32-bit int but that are assigned wider values
         for d in f.all("decl"):
             for v in f.nodes[d].get("vars", []):
